@@ -135,7 +135,7 @@ func tGenes(tag string, ts []*neat.Trait, nodes []*network.NNode, c tmplCfg) []*
 		if c.symRecur {
 			recur = vBool(tag + ".gene.recur")
 		}
-		g := NewGeneWithTrait(tPickTrait(tag+".gene", ts, c.nilTraits && i == 0, true, i), w, inN, outN, recur, int64(innov), m)
+		g := NewGeneWithTrait(tPickTrait(tag+".gene", ts, c.nilTraits && i == c.genes-1, true, i), w, inN, outN, recur, int64(innov), m)
 		if c.symEnable {
 			g.IsEnabled = vBool(tag + ".gene.enabled")
 		}
